@@ -421,6 +421,7 @@ class Rewriter:
     # ---- B. iterator pipelines ------------------------------------------------------------------------
     STAGES = ("map", "filter", "filter_map", "copied", "cloned", "inspect", "flat_map")
     SINKS = ("sum", "count", "for_each", "fold", "collect", "find", "position")
+    PREFILTER = ("rposition",)
 
     def producer_call(self, op):
         """(block index, terminator) of the call that defines the operand's local (single definition), else None"""
@@ -648,6 +649,129 @@ class Rewriter:
             # a flat_map stage: the body's `continue` (its back edges to this header) must continue the inner loop
             for ob in self.blocks:
                 pass
+        return True
+
+    def _vec_place_of_iter(self, op):
+        """the `&Vec<T>` place behind an iterator operand: `v.iter()` (slice::iter(deref(&v)) / slice::iter(&*deref(&v))) or `&v`;
+        returns (place dict of v, dropped producer blocks) or None"""
+        pl = op.get("move") or op.get("copy")
+        if pl is None or pl["proj"]:
+            return None
+        drops = []
+        l = pl["l"]
+        for _ in range(8):
+            ds = self.defs_of(l)
+            if len(ds) != 1:
+                return None
+            if ds[0][0] == "stmt":
+                rv = ds[0][2]["rv"]
+                if "ref" in rv and not rv.get("mut"):
+                    rp = rv["ref"]
+                    if rp["proj"] == ["deref"]:
+                        l = rp["l"]
+                        continue
+                    ty = self.locals[l]["ty"]
+                    if ty.startswith("&std::vec::Vec<") and rp["proj"] and rp["proj"][0] == "deref" and rp["l"] <= self.d.get("arg_count", 0):
+                        return copy.deepcopy(rp), drops
+                    return None
+                if "use" in rv:
+                    p2 = rv["use"].get("move") or rv["use"].get("copy")
+                    if p2 is None or p2["proj"]:
+                        return None
+                    l = p2["l"]
+                    continue
+                return None
+            pb, pt = ds[0][1], ds[0][2]
+            q = pt["callee"].get("resolved") or pt["callee"].get("path")
+            if q in ("core::slice::<impl [T]>::iter", "<std::vec::Vec<T, A> as std::ops::Deref>::deref") and len(pt["args"]) == 1:
+                a0 = pt["args"][0].get("move") or pt["args"][0].get("copy")
+                if a0 is None or a0["proj"]:
+                    return None
+                drops.append(pb)
+                l = a0["l"]
+                continue
+            return None
+        return None
+
+    def rewrite_rposition_zip(self, bi):
+        """`a.iter().zip(&b).rposition(|(x, y)| p(x, y))` over two vectors reachable from a parameter: the index form
+        `for i in (0..min(a.len(), b.len())).rev() { if p(&a[i], &b[i]) { return Some(i) } } None` (zip stops at the shorter
+        vector, so the synthesized `a[i]` / `b[i]` cannot be out of bounds)"""
+        b = self.blocks[bi]
+        t = b["term"]
+        c = t["callee"]
+        if c.get("name") != "rposition" or not (c.get("trait") or "").endswith("iter::Iterator") or t.get("to") is None or t["dest"]["proj"] \
+                or len(t["args"]) != 2:
+            return False
+        cb = self.callable_of(t["args"][1])
+        if cb is None:
+            return False
+        # receiver: &mut Z, Z = zip(A, B)
+        pl = t["args"][0].get("move") or t["args"][0].get("copy")
+        if pl is None or pl["proj"]:
+            return False
+        ds = self.defs_of(pl["l"])
+        if len(ds) != 1 or ds[0][0] != "stmt" or "ref" not in ds[0][2]["rv"] or ds[0][2]["rv"]["ref"]["proj"]:
+            return False
+        Z = ds[0][2]["rv"]["ref"]["l"]
+        zd = self.defs_of(Z)
+        if len(zd) != 1 or zd[0][0] != "call" or zd[0][2]["callee"].get("name") != "zip" or len(zd[0][2]["args"]) != 2:
+            return False
+        zb, zt = zd[0][1], zd[0][2]
+        if not self.linear_to(zb, bi):
+            return False
+        A = self._vec_place_of_iter(zt["args"][0])
+        B = self._vec_place_of_iter(zt["args"][1])
+        if A is None or B is None:
+            return False
+        (pa, da), (pb_, db) = A, B
+        line = b["line"]
+        after = t["to"]
+        dest = t["dest"]["l"]
+        for x in da + db + [zb]:
+            xt = self.blocks[x]["term"]
+            self.blocks[x]["term"] = {"k": "goto", "to": xt["to"], "syn": "stage-dropped"}
+
+        def std_call(path, name, trait, args, dst, to, gen=None):
+            return {"k": "call", "callee": {"path": path, "full": path, "name": name, "trait": trait, "local": False, "resolved": path,
+                                            "resolved_local": False, "resolved_kind": "Item", "generic_args": gen or [], "bound_impls": [], "syn": True},
+                    "args": args, "dest": _pl(dst), "to": to, "syn": True}
+        vty_a = self.locals[(zt["args"][0].get("move") or zt["args"][0].get("copy"))["l"]]["ty"]
+        # lengths and the reversed index range
+        ra, rb = self.new_local("&std::vec::Vec<?>"), self.new_local("&std::vec::Vec<?>")
+        la, lb, hi = self.new_local("usize"), self.new_local("usize"), self.new_local("usize")
+        rng = self.new_local("std::ops::Range<usize>")
+        it = self.new_local("std::iter::Rev<std::ops::Range<usize>>")
+        b1, b2, b3, b4 = self.new_block(line), self.new_block(line), self.new_block(line), self.new_block(line)
+        b["stmts"].append(_assign(_pl(ra), {"ref": copy.deepcopy(pa), "mut": False}, line))
+        b["term"] = std_call("std::vec::Vec::<T, A>::len", "len", None, [_mv(ra)], la, b1)
+        self.blocks[b1]["stmts"].append(_assign(_pl(rb), {"ref": copy.deepcopy(pb_), "mut": False}, line))
+        self.blocks[b1]["term"] = std_call("std::vec::Vec::<T, A>::len", "len", None, [_mv(rb)], lb, b2)
+        self.blocks[b2]["term"] = std_call("std::cmp::min", "min", None, [_cp(la), _cp(lb)], hi, b3)
+        self.blocks[b3]["stmts"].append(_assign(_pl(rng), {"agg": {"adt": "std::ops::Range", "variant": "Range", "vidx": 0, "local": False},
+                                                            "ops": [{"const": {"int": 0, "ty": "usize"}}, _cp(hi)]}, line))
+        self.blocks[b3]["term"] = std_call("std::iter::Iterator::rev", "rev", "std::iter::Iterator", [_mv(rng)], it, b4)
+        header, body, exit_b, opt = self.new_loop(it, "std::iter::Rev<std::ops::Range<usize>>", line)
+        self.blocks[b4]["term"] = {"k": "goto", "to": header, "syn": True}
+        i = self.new_local("usize")
+        self.blocks[body]["stmts"].append(_assign(_pl(i), {"use": _mv(opt, _variant("Some", 1, "usize", "std::option::Option<usize>"))}, line))
+        ra2, rb2 = self.new_local("&std::vec::Vec<?>"), self.new_local("&std::vec::Vec<?>")
+        ea, eb = self.new_local("&?"), self.new_local("&?")
+        c1, c2, c3 = self.new_block(line), self.new_block(line), self.new_block(line)
+        self.blocks[body]["stmts"].append(_assign(_pl(ra2), {"ref": copy.deepcopy(pa), "mut": False}, line))
+        idx_path = "<std::vec::Vec<T, A> as std::ops::Index<I>>::index"
+        self.blocks[body]["term"] = std_call(idx_path, "index", "std::ops::Index", [_mv(ra2), _cp(i)], ea, c1, gen=["std::vec::Vec<?>", "usize"])
+        self.blocks[c1]["stmts"].append(_assign(_pl(rb2), {"ref": copy.deepcopy(pb_), "mut": False}, line))
+        self.blocks[c1]["term"] = std_call(idx_path, "index", "std::ops::Index", [_mv(rb2), _cp(i)], eb, c2, gen=["std::vec::Vec<?>", "usize"])
+        tup = self.new_local(self.param_ty(cb, 0))
+        self.blocks[c2]["stmts"].append(_assign(_pl(tup), {"agg": "tuple", "ops": [_mv(ea), _mv(eb)]}, line))
+        hit = self.new_local("bool")
+        self.blocks[c2]["term"] = self.call_callable(cb, [_mv(tup)], hit, c3, line, self.blocks[c2]["stmts"])
+        yes = self.new_block(line, [_assign(_pl(dest), {"agg": {"adt": "std::option::Option", "variant": "Some", "vidx": 1, "local": False}, "ops": [_cp(i)]}, line)],
+                             {"k": "goto", "to": after})
+        self.blocks[c3]["term"] = {"k": "switch", "on": _mv(hit), "ty": "bool", "arms": [[0, header]], "otherwise": yes, "syn": True}
+        self.blocks[exit_b]["stmts"].append(_assign(_pl(dest), {"agg": {"adt": "std::option::Option", "variant": "None", "vidx": 0, "local": False}, "ops": []}, line))
+        self.blocks[exit_b]["term"] = {"k": "goto", "to": after}
         return True
 
     def rewrite_pipeline(self, bi):
@@ -939,7 +1063,7 @@ class Rewriter:
                 if t["k"] != "call" or b.get("cleanup") or "indirect" in t["callee"]:
                     continue
                 try:
-                    if self.rewrite_combinator(bi) or self.rewrite_pipeline(bi) or self.rewrite_closure_call(bi) or self.rewrite_loop_source(bi):
+                    if self.rewrite_combinator(bi) or self.rewrite_pipeline(bi) or self.rewrite_closure_call(bi) or self.rewrite_loop_source(bi) or self.rewrite_rposition_zip(bi):
                         progress = True
                         self.changed = True
                 except (KeyError, IndexError, TypeError):
@@ -984,7 +1108,7 @@ def normalise(F):
             t = b["term"]
             if t["k"] == "call" and "indirect" not in t["callee"]:
                 n = t["callee"].get("name")
-                if n in Rewriter.SINKS or n in Rewriter.STAGES or n in ("map", "map_or", "map_or_else", "and_then", "unwrap_or_else", "filter", "flatten",
+                if n in Rewriter.SINKS or n in Rewriter.STAGES or n in Rewriter.PREFILTER or n in ("map", "map_or", "map_or_else", "and_then", "unwrap_or_else", "filter", "flatten",
                                                 "map_err", "then", "then_some", "call", "call_mut", "call_once", "ok", "ok_or", "branch"):
                     has = True
                     break
